@@ -314,7 +314,9 @@ def finish(ctx, meta, t0):
             lines.append('KNOWN-FINDING: property=%s %s %s' % (prop, k, kf[k].get('what', o.detail)[:300]))
         else:
             new_viol.append(o)
-    rdir = os.path.join(VERIF, 'replay', prop)
+    scratch = (ctx.root != REPO) or bool(os.environ.get('SA_NO_EVIDENCE'))
+    outbase = VERIF if not scratch else os.path.join('/tmp', 'sa_scratch_%d' % os.getpid())
+    rdir = os.path.join(outbase, 'replay', prop)
     if new_viol:
         os.makedirs(rdir, exist_ok=True)
     for o in new_viol:
@@ -363,9 +365,10 @@ def finish(ctx, meta, t0):
         'wall_s': round(wall, 3),
         'violations': len(new_viol),
     }
-    os.makedirs(os.path.join(VERIF, 'evidence'), exist_ok=True)
-    with open(os.path.join(VERIF, 'evidence', '%s.json' % prop), 'w') as f:
-        json.dump(ev, f, indent=1, default=str)
+    if not scratch:
+        os.makedirs(os.path.join(VERIF, 'evidence'), exist_ok=True)
+        with open(os.path.join(VERIF, 'evidence', '%s.json' % prop), 'w') as f:
+            json.dump(ev, f, indent=1, default=str)
     print('%s tier=%s: %d obligations, %d ok, %d known findings, %d new violations, %d analysis errors, %.2fs'
           % (prop, ctx.tier, nobs, len(oks), len(viol) - len(new_viol), len(new_viol), len(errs), wall))
     if new_viol:
